@@ -1019,6 +1019,32 @@ pub fn directed() -> Vec<Request> {
             out.push(Request { mode: Mode::Attr, attr: "Sub".into(), item: format!("impl<'a, T> SubAssign<&Self> for {st} where {w}, T: Copy {{ }}") });
         }
     }
+    // `macro_rules!` fragments in every other position they can take in an item: visibility
+    // (also the empty one), discriminants, array lengths, const defaults, where clauses, trait
+    // paths, foreign attributes (`$l:literal`, `$e:expr`, `$m:meta`), trait names in the list
+    for item in [
+        "__ng(pub) struct X(__ng(pub(crate)) u8, __ng() String);",
+        "__ng() struct X { __ng() a: u8, __ng(pub(in crate::m)) b: __ng(Vec<u8>) }",
+        "__ng(pub) enum X { A = __ng(1), #[default] B = __ng(2 * 3), C = __ng(-1) }",
+        "__ng() enum X<T> { A(__ng() T), #[default] B { __ng(pub) b: u8 } }",
+        "struct X<const N: usize = __ng(3)>([u8; __ng(N + 1)], [u8; __ng(2)]);",
+        "struct X<T>(T) where __ng(T): __ng(Clone), __ng(Vec<T>): Default;",
+        "#[doc = __ng(\"text\")] struct X(#[doc = __ng(concat!(\"a\", \"b\"))] u8);",
+        "#[cfg(__ng(any(unix, windows)))] struct X { #[cfg(__ng(unix))] a: u8, #[cfg_attr(__ng(test), allow(unused))] b: u8 }",
+        "#[cfg_attr(__ng(all()), derive_ex(Debug))] #[repr(__ng(C))] struct X(#[allow(__ng(dead_code))] u8);",
+        "#[derive_ex(__ng(Clone))] struct X<T>(#[derive_ex(__ng(Default)(bound(__ng(T))))] T);",
+        "enum X { #[doc = __ng(\"d\")] A(#[cfg(__ng(all()))] u8), #[default] B }",
+        "impl __ng(Add) for X { type Output = __ng(X); }",
+        "impl<T> __ng(::core::ops::Sub)<__ng(&T)> for __ng(&X<T>) where __ng(T): Copy { type Output = X<T>; }",
+        "__ng(pub) struct X<'a, T>(#[default(__ng(\"s\"))] &'a str, #[ord(key = __ng(1 + 1))] T);",
+    ] {
+        for attr in ["Clone, Default, Debug, Ord, PartialOrd, Eq, PartialEq, Hash", "Add, AddAssign", "Clone", "Deref", "__ng(Clone), __ng(Default)", ""] {
+            out.push(Request { mode: Mode::Attr, attr: attr.into(), item: item.into() });
+            if !item.starts_with("impl") {
+                out.push(Request { mode: Mode::Derive, attr: String::new(), item: format!("#[derive_ex({attr})] {item}") });
+            }
+        }
+    }
     // normalise to the printed token form and drop what is not a valid request
     let mut res = Vec::new();
     let mut seen = std::collections::BTreeSet::new();
